@@ -433,6 +433,10 @@ func runCheck(id, tier string) int {
 	if err != nil {
 		c.Inconclusive = "infrastructure error: " + err.Error()
 	}
+	if len(c.Violations) == 0 && c.Inconclusive == "" && c.Stats.Evaluations == 0 {
+		// nothing was built or nothing could be run: that is not "the property held"
+		c.Inconclusive = "the check evaluated nothing (see the notes in the evidence file)"
+	}
 	for _, l := range c.Known {
 		fmt.Println(l)
 	}
